@@ -61,9 +61,10 @@ def main():
     try:
         for cfgname, kw in (("default", {}), ("rwm-syst-noclust", dict(sample="rwm", resample="syst", clustering=False)),
                             ("blobs", dict(blobs=True)), ("pool-like", dict(pool=PoolLike())), ("pool=1", dict(pool=1)), ("pool=2", dict(pool=2)),
-                            ("cluster_every=3", dict(cluster_every=3))):
+                            ("cluster_every=3", dict(cluster_every=3)), ("progress-bar-on", dict(progress=True))):
             tried += 1
             blobs = kw.pop("blobs", False)
+            progress = kw.pop("progress", False)
             d = os.path.join(tmp, cfgname)
             mk = lambda out: Sampler(pt, llb if blobs else ll, n_dim=2, n_particles=24, random_state=9, output_dir=out,
                                      blobs_dtype="float" if blobs else None, **kw)
@@ -76,7 +77,7 @@ def main():
                 return orig(path)
             s._core.save_sampler_state = spy
             try:
-                s.run(n_total=96, progress=False, save_every=1)
+                s.run(n_total=96, progress=progress, save_every=1)
             except Exception as e:
                 return {"reproduced": True, "detail": f"[{cfgname}] run with save_every=1 raised {type(e).__name__}: {e}", "input": {"config": cfgname}}
             full = snap(s)
@@ -85,7 +86,11 @@ def main():
                 return {"reproduced": True, "detail": f"[{cfgname}] checkpoint files {os.listdir(d)}", "input": {"config": cfgname}}
             for path, st in states.items():
                 f = mk(os.path.join(tmp, cfgname + "_l"))
-                f.load_state(path)
+                try:
+                    f.load_state(path)
+                except BaseException as e:        # incl. RecursionError / pickling errors: the checkpoint is not loadable
+                    return {"reproduced": True, "detail": f"[{cfgname}] checkpoint {os.path.basename(path)} cannot be loaded into a fresh sampler: "
+                            f"{type(e).__name__}: {str(e)[:200]}", "input": {"config": cfgname, "checkpoint": os.path.basename(path)}}
                 r = same(st, snap(f))
                 if r:
                     return {"reproduced": True, "detail": f"[{cfgname}] checkpoint {os.path.basename(path)} does not restore the state that existed when it was written: {r}",
@@ -96,7 +101,11 @@ def main():
             k = int(os.path.basename(mid).split("_")[1].split(".")[0])
             for nt in (96, 300):
                 r2 = mk(os.path.join(tmp, cfgname + f"_r{nt}"))
-                r2.run(n_total=nt, progress=False, resume_state_path=mid)
+                try:
+                    r2.run(n_total=nt, progress=False, resume_state_path=mid)
+                except BaseException as e:
+                    return {"reproduced": True, "detail": f"[{cfgname}] resuming from {os.path.basename(mid)} raised {type(e).__name__}: {str(e)[:200]}",
+                            "input": {"config": cfgname, "checkpoint": os.path.basename(mid)}}
                 sn = snap(r2)
                 rr = same(states[mid], sn, prefix=len(states[mid][1]["beta"]))
                 if rr:
